@@ -1648,3 +1648,14 @@ class ScaleTrilExact(_MomentExact):
     def check(self, T, got, P, w, dim):
         tri = all(got[i, j].is_zero() for i in range(dim) for j in range(i + 1, dim))
         return tri and ra.verdict(T, (P @ P.T) @ got @ got.T, _eye(T, dim))
+
+
+# seeded faults are run on the quick structures only: a faulty body does not cancel, so its rational functions (and their
+# numeric confirmation) grow without bound on the larger thorough shapes -- refuting a fault once is what the self-test needs
+def _quick_structures_for_faults(self, tier, label):
+    return list(self.structures("quick"))
+
+
+for _c in list(globals().values()):
+    if isinstance(_c, type) and issubclass(_c, Contract) and _c.__module__ == __name__ and "mutant_structures" not in _c.__dict__:
+        _c.mutant_structures = _quick_structures_for_faults
